@@ -318,7 +318,7 @@ def _failed(task, why):
             'functions': [], 'samples': [], 'queries': 0, 'solver_s': 0, 'unknown': 0, 'wall_s': 0, 'inconclusive': [{'why': why}]}
 
 
-def run_pool(tasks, jobs, mod, tier):
+def run_pool(tasks, jobs, mod, tier, fresh=None, budget_s=None):
     """One forked process per configuration (the parent has the packages loaded), killed on a hard wall-clock limit:
     a solver call that ignores its own timeout cannot stall the check."""
     import multiprocessing as mp
@@ -329,7 +329,22 @@ def run_pool(tasks, jobs, mod, tier):
     pending = list(enumerate(tasks))[::-1]
     running = {}
     results = [None] * len(tasks)
+    t_start = time.time()
+    found = [False]
     while pending or running:
+        if budget_s and found[0] and time.time() - t_start > budget_s:
+            # a violation that no known finding explains has been replayed and the wall budget is spent: what is left would only add
+            # to an answer that is already "exit 1" (on a changed tree the remaining queries tend to run into their timeouts)
+            for conn, (p, idx, task, dl) in list(running.items()):
+                p.kill()
+                p.join(5)
+                conn.close()
+                results[idx] = _failed(task, 'not run: wall budget reached after a replayed violation')
+            running.clear()
+            for idx, task in pending:
+                results[idx] = _failed(task, 'not run: wall budget reached after a replayed violation')
+            pending = []
+            break
         while pending and len(running) < jobs:
             idx, task = pending.pop()
             pr, pw = ctx.Pipe(duplex=False)
@@ -349,6 +364,8 @@ def run_pool(tasks, jobs, mod, tier):
             conn.close()
             p.join(5)
             results[idx] = r if r is not None else _failed(task, 'worker died')
+            if fresh is not None and r is not None and not found[0] and fresh(r):
+                found[0] = True
         now = time.time()
         for conn in [c for c, v in running.items() if v[3] < now]:
             p, idx, task, dl = running.pop(conn)
@@ -416,9 +433,17 @@ def main(argv=None):
         totals[hname] = {'configs_total': total, 'configs_run': len(cfgs), 'exhaustive': bool(exhaustive and len(cfgs) == total)}
         for cfg in cfgs:
             tasks.append((pid, hname, cfg, tier, seed, {'no_validate': a.no_validate}))
-    results = run_pool(tasks, max(1, a.jobs), mod, tier)
-    results.sort(key=lambda r: (r['harness'], json.dumps(r['cfg'], sort_keys=True)))
     known = load_known()
+
+    def fresh(r):
+        for c in r.get('confirmed') or []:
+            names = [f['ob'] for f in c['replay_failures']] or [c['ob']]
+            if any(not any(match_known(k, pid, r['harness'], r['cfg'], n) for k in known) for n in names):
+                return True
+        return False
+    budget = float(os.environ.get('VERIF_WALL_AFTER_VIOLATION', '600' if tier == 'quick' else '3600'))
+    results = run_pool(tasks, max(1, a.jobs), mod, tier, fresh=fresh, budget_s=budget)
+    results.sort(key=lambda r: (r['harness'], json.dumps(r['cfg'], sort_keys=True)))
     violations, known_hits, inconc = [], {}, []
     for r in results:
         for c in r['confirmed']:
